@@ -141,10 +141,24 @@ Definition strip_star (s : list ascii) : list ascii :=
 Definition ascii_list_eqb (a b : list ascii) : bool :=
   if list_eq_dec ascii_dec a b then true else false.
 
+(* the first blank-separated field *)
+Fixpoint span_word (s : list ascii) : list ascii * list ascii :=
+  match s with
+  | [] => ([], [])
+  | c :: r => if is_space c then ([], s) else let (w, t) := span_word r in (c :: w, t)
+  end.
+
+(* "<digest><blanks>[*]<name>": the name is the whole rest of the line (trailing blanks dropped), so that an entry for
+   "<asset> (1)" or "<asset> old" is not taken for the asset's *)
 Definition line_entry (l : list ascii) : option (list ascii * list ascii) :=
-  match words l with
-  | h :: n :: _ => Some (h, strip_star n)
-  | _ => None
+  let (h, rest) := span_word (drop_spaces l) in
+  match h, rest with
+  | _ :: _, _ :: _ =>
+    match rstrip (strip_star (drop_spaces rest)) with
+    | [] => None
+    | n => Some (h, n)
+    end
+  | _, _ => None
   end.
 
 Fixpoint find_checksum (ls : list (list ascii)) (asset : list ascii) : option (list ascii) :=
